@@ -11,6 +11,7 @@ import (
 	"net"
 	"os"
 	"regexp"
+	"runtime"
 	"strconv"
 	"strings"
 	"sync"
@@ -494,3 +495,41 @@ func Marshal(m message.Message) []byte {
 
 // NewSock opens an additional harness socket (e.g. a simulated gNB).
 func NewSock(ip string, port int) (*Sock, error) { return newSock(ip, port) }
+
+// LoopState inspects a goroutine dump for the server's event loop: it returns
+// the goroutine's scheduler state ("running", "chan send", "IO wait", ...)
+// and the innermost go-upf / go-pfcp frame.  Used to tell a loop that is
+// blocked or spinning inside the code under test from one that waits on the
+// operating system.
+func LoopState() (state, frame, dump string) {
+	buf := make([]byte, 1<<22)
+	n := runtime.Stack(buf, true)
+	dump = string(buf[:n])
+	for _, g := range strings.Split(dump, "\n\n") {
+		if !strings.Contains(g, "pfcp.(*PfcpServer).main(") {
+			continue
+		}
+		lines := strings.Split(g, "\n")
+		if len(lines) == 0 {
+			continue
+		}
+		// "goroutine 12 [chan send, 2 minutes]:"
+		if i := strings.Index(lines[0], "["); i >= 0 {
+			if j := strings.Index(lines[0][i:], "]"); j > 0 {
+				state = strings.SplitN(lines[0][i+1:i+j], ",", 2)[0]
+			}
+		}
+		for _, l := range lines[1:] {
+			if strings.HasPrefix(l, "github.com/free5gc/go-upf/") || strings.HasPrefix(l, "github.com/wmnsk/go-pfcp/") ||
+				strings.HasPrefix(l, "github.com/free5gc/go-gtp5gnl") || strings.HasPrefix(l, "github.com/khirono/") {
+				if k := strings.LastIndex(l, "("); k > 0 {
+					l = l[:k]
+				}
+				frame = l
+				break
+			}
+		}
+		return
+	}
+	return "gone", "", dump
+}
